@@ -140,7 +140,7 @@ func (h *hist) step() {
 		var err error
 		var val *model.Node
 		var what string
-		switch r.Intn(7) {
+		switch r.Intn(8) {
 		case 0:
 			x := int64(r.Intn(100) - 50)
 			err = t.c.SetInt(name, idx, x, h.o...)
@@ -161,6 +161,21 @@ func (h *hist) step() {
 			x := []float64{2.5, -1.5, 3, 0}[r.Intn(4)]
 			err = t.c.SetFloat(name, idx, x, h.o...)
 			val, what = model.P(x), fmt.Sprintf("SetFloat(%v)", x)
+		case 5:
+			// hand an already parented config (a live child handle, possibly a
+			// direct child of the very config written to) to SetChild: the tree
+			// gets a copy, the handle stays a view of its old place
+			lv := h.live()
+			if len(lv) < 2 {
+				return
+			}
+			src := lv[1+r.Intn(len(lv)-1)]
+			if src.c == t.c || model.Reachable(src.n, t.n) {
+				return // never make a config its own descendant
+			}
+			err = t.c.SetChild(name, idx, src.c, h.o...)
+			val, what = src.n.Copy(), fmt.Sprintf("SetChild(handle %s=%s)", src.desc, src.n)
+			h.res.Ev("setchild_of_parented_handle", 1)
 		default:
 			sub := smallTree(r)
 			sc, e := ucfg.NewFrom(sub.ToGo())
